@@ -49,6 +49,32 @@ def _is_args_comp(e, ev) -> bool:
     )
 
 
+def _pair_evaluate_ok(repo: Repo, ev: str) -> bool:
+    """KeywordArgument.<ev> returns the pair (self.name, self.value.<ev>(context))"""
+    try:
+        f = repo.own_method("liquid.builtin.expressions.arguments.KeywordArgument", ev)
+    except Exception:  # noqa: BLE001
+        return False
+    rets = [r.value for r in ast.walk(f.node) if isinstance(r, ast.Return) and r.value is not None]
+    if len(rets) != 1 or not (isinstance(rets[0], ast.Tuple) and len(rets[0].elts) == 2):
+        return False
+    k, v = rets[0].elts
+    v = unwrap_await(v)
+    return attr_chain(k) == ["self", "name"] and isinstance(v, ast.Call) and attr_chain(v.func) == ["self", "value", ev] and len(v.args) == 1
+
+
+def _is_args_pairs(repo: Repo, e, ev) -> bool:
+    """dict(<a.<ev>(context) for a in self.args>) — the same mapping through the argument's own
+    (name, value) pair (side condition on KeywordArgument.<ev> checked)"""
+    if not (isinstance(e, ast.Call) and is_name(e.func, "dict") and len(e.args) == 1 and not e.keywords and isinstance(e.args[0], (ast.GeneratorExp, ast.ListComp)) and len(e.args[0].generators) == 1):
+        return False
+    g = e.args[0].generators[0]
+    if g.ifs or attr_chain(g.iter) != ["self", "args"] or not isinstance(g.target, ast.Name):
+        return False
+    v = unwrap_await(e.args[0].elt)
+    return isinstance(v, ast.Call) and attr_chain(v.func) == [g.target.id, ev] and len(v.args) == 1 and is_name(v.args[0], "context") and _pair_evaluate_ok(repo, ev)
+
+
 def run(repo: Repo) -> Result:
     res = Result(PID)
     res.rules = ["C27-WITH", "C27-CALL", "C27-BIND"]
@@ -73,7 +99,7 @@ def run(repo: Repo) -> Result:
                 res.add("C27-WITH", f.qual, "namespace-binding", f"{f.qual}: the namespace must be bound once, before the with statement", f.file, w.lineno)
                 continue
             ns = binds[0].value
-        if not _is_args_comp(ns, ev):
+        if not _is_args_comp(ns, ev) and not _is_args_pairs(repo, ns, ev):
             res.add("C27-WITH", f.qual, f"namespace:{text(ns)[:50]}", f"{f.qual}: namespace must be {{a.name: a.value.{ev}(context) for a in self.args}}, found `{text(ns)[:80]}`", f.file, w.lineno)
         # the block is rendered inside the with and nowhere else
         inside = [c for c in calls(w) if callee_name(c) == rd and attr_chain(call_recv(c)) == ["self", "block"]]
@@ -228,6 +254,24 @@ def run(repo: Repo) -> Result:
         res.add("C27-BIND", f.qual, "keyword", "keyword arguments must be applied in a loop over self.kwargs", f.file, f.line)
     else:
         a_ = kw.target.id
+        # a local that only abbreviates an attribute of the loop variable (`name = arg.name`) is
+        # written out before the shape is read
+        import copy as _copy27
+
+        kw = _copy27.deepcopy(kw)
+        abbrev = {}
+        rest = []
+        for st in kw.body:
+            if isinstance(st, ast.Assign) and len(st.targets) == 1 and isinstance(st.targets[0], ast.Name) and attr_chain(st.value) and attr_chain(st.value)[0] == a_ and not rest:
+                abbrev[st.targets[0].id] = st.value
+            else:
+                rest.append(st)
+        if abbrev:
+            class _Sub(ast.NodeTransformer):
+                def visit_Name(self, n):
+                    return _copy27.deepcopy(abbrev[n.id]) if isinstance(n.ctx, ast.Load) and n.id in abbrev else n
+
+            kw.body = [_Sub().visit(st) for st in rest]
         ok = (
             len(kw.body) == 1
             and isinstance(kw.body[0], ast.If)
